@@ -202,7 +202,13 @@ class Validator(object):
                 # For complex datatypes element, the reference is the one of the datatype
                 if not is_base_datatype(el.datatype, el.version) and el.datatype is not None:
                     # Component just to search in the datatypes....
-                    ref = load_reference(el.datatype, 'Datatypes_Structs', el.version)
+                    try:
+                        ref = load_reference(el.datatype, 'Datatypes_Structs', el.version)
+                    except ChildNotFound:
+                        # e.g. the withdrawn fields of type LA2 in v2.8.2, whose datatype is no longer defined
+                        errs.append(ValidationError("Datatype {} of {}.{} is not defined".
+                                                    format(el.datatype, el.parent.name, el.name)))
+                        return
                     _is_valid(el, ref, errs, warns)
 
         def _is_valid(el, ref, errs, warns):
